@@ -7,4 +7,5 @@ INVARIANT Inv_Wellformed0
 INVARIANT Inv_NameView
 INVARIANT Inv_WellFormed
 INVARIANT Inv_Order
+INVARIANT Inv_PermutedId
 CHECK_DEADLOCK FALSE
